@@ -6,10 +6,63 @@ package main
 
 import (
 	"fmt"
+	"os"
+	"strings"
 
+	vaxis "git.sr.ht/~rockorager/vaxis"
 	"verif/harness/hx"
 	"verif/harness/termhx"
 )
+
+const (
+	hostCols, hostRows = 24, 14
+	winCol, winRow     = 3, 2
+)
+
+type drawJSON struct {
+	Hist    histJSON `json:"hist"`
+	Outside bool     `json:"outside_untouched"`
+	Visible bool     `json:"cursor_visible"`
+	Col     int      `json:"cursor_col"`
+	Row     int      `json:"cursor_row"`
+	W, H    int
+}
+
+// drawCase draws the emulator into a child window of size w x h of a real Vaxis whose
+// screen was filled with a sentinel, and returns the Coq term of the observation.
+func drawCase(vx *vaxis.Vaxis, r *termhx.Runner, w, h int) (string, drawJSON) {
+	root := vx.Window()
+	sentinel := vaxis.Cell{Character: vaxis.Character{Grapheme: "#", Width: 1}}
+	root.Fill(sentinel)
+	vx.HideCursor()
+	win := root.New(winCol, winRow, w, h)
+	vt := r.T.Model()
+	vt.Focus()
+	vt.Draw(win)
+	scr := vx.VerifScreenNext()
+	outside := true
+	var rows []string
+	for y := range scr {
+		var cells []string
+		for x := range scr[y] {
+			c := scr[y][x]
+			inside := x >= winCol && x < winCol+w && y >= winRow && y < winRow+h
+			if inside {
+				cells = append(cells, fmt.Sprintf("(%s, %d, %s)", hx.Runes(c.Grapheme), c.Width, termhx.CoqStyle(c.Style)))
+			} else if c.Cell != sentinel {
+				outside = false
+			}
+		}
+		if y >= winRow && y < winRow+h {
+			rows = append(rows, hx.List(cells))
+		}
+	}
+	cur := vx.VerifCursorNext()
+	j := drawJSON{Outside: outside, Visible: cur.Visible, Col: cur.Col - winCol, Row: cur.Row - winRow, W: w, H: h}
+	obs := fmt.Sprintf("(%s, (%s, %s, %s), [%s])", hx.Bool(outside), hx.Bool(cur.Visible),
+		hx.Z(int64(j.Col)), hx.Z(int64(j.Row)), strings.Join(rows, ";\n "))
+	return obs, j
+}
 
 type histJSON struct {
 	Class string        `json:"class,omitempty"`
@@ -24,10 +77,43 @@ func main() {
 	s.Known = "c05_hist_known"
 	s.KnownClass = "event-stall"
 	s.ShardMax = 40
+	ds := hx.NewStream("draw", "model.Colour model.Sgr model.Term model.TermCheck", "draw_case",
+		"c05_draw_mismatches", "c05_draw_violations")
+	ds.ShardMax = 40
+	os.Unsetenv("COLORTERM")
+	fc := hx.NewFakeConsole(hx.ProfileFromMask(0, hostRows, hostCols))
+	vx, err := vaxis.New(vaxis.Options{WithConsole: fc, NoSignals: true})
+	if err != nil {
+		panic(err)
+	}
+	defer vx.Close()
 	var direct []hx.DirectViolation
 	outcomes := map[string]int{}
 
+	nDraw := 0
 	add := func(r *termhx.Runner, kind string, tags ...string) {
+		// every third surviving history is also drawn: into a window of the terminal's
+		// size, or of another size (Draw then resizes the terminal first)
+		var drawObs string
+		var dj drawJSON
+		if !r.Dead && len(r.Steps) > 0 {
+			nDraw++
+			if nDraw%3 == 0 {
+				last := r.Steps[len(r.Steps)-1].Obs
+				w, h := last.Cols, last.Rows
+				if nDraw%9 == 0 {
+					w, h = 1+cfg.Rand.Intn(12), 1+cfg.Rand.Intn(8)
+				}
+				panicked, msg := hx.Catch(func() { drawObs, dj = drawCase(vx, r, w, h) })
+				if panicked {
+					direct = append(direct, hx.DirectViolation{Class: "draw-panic", Case: histJSON{Kind: kind, Steps: r.Steps}, What: msg})
+					drawObs = ""
+				} else if w != last.Cols || h != last.Rows {
+					// Draw resized the terminal: that is one more step of the history
+					r.Steps = append(r.Steps, termhx.Step{Resize: true, W: w, H: h, Obs: r.Observe()})
+				}
+			}
+		}
 		r.Finish()
 		kinds := map[string]bool{}
 		for _, st := range r.Steps {
@@ -46,9 +132,13 @@ func main() {
 		}
 		tags = append(tags, kind, "outcome-"+out, fmt.Sprintf("steps-%d0s", len(r.Steps)/10))
 		s.Add(termhx.CoqHistory(r.Steps), h, len(kinds) >= 3, tags...)
+		if drawObs != "" {
+			dj.Hist = h
+			ds.Add("("+termhx.CoqHistory(r.Steps)+",\n "+drawObs+")", dj, len(kinds) >= 3, kind, fmt.Sprintf("window-%v", dj.W == r.Steps[len(r.Steps)-1].W))
+		}
 	}
 
-	nGrammar, nFuzz, nStall := 260, 60, 30
+	nGrammar, nFuzz, nStall := 640, 150, 60
 	if cfg.Thorough() {
 		nGrammar, nFuzz, nStall = 6000, 1500, 300
 	}
@@ -114,5 +204,5 @@ func main() {
 		add(r, "events", sizeTag(g.W, g.H))
 	}
 	cfg.Write("C05", "histories from New(): first resize to a size from 1x1 upward, then chunks of grammar-generated child output (printable narrow/wide/zero-width text, C0, ESC, CSI with parameters omitted/0/1/size-1/size/size+1/huge/overflowing, SGR, OSC/APC/DCS strings) or raw fuzzed bytes, parsed by the real ansi.Parser and fed one sequence at a time through the unmodified update path, with resizes between chunks and a random event-drain schedule; after every step the observation (outcome, size, cursor, deferred-wrap flag, margins, events pending, length of every row of both grids) and every 9th step plus the last one the complete state (both grids, pen, modes, tab stops, charsets, saved cursors); non-trivial = at least three different control functions in the history",
-		[]*hx.Stream{s}, map[string]interface{}{"outcomes": outcomes}, direct)
+		[]*hx.Stream{s, ds}, map[string]interface{}{"outcomes": outcomes}, direct)
 }
